@@ -112,6 +112,8 @@ inductive BOp
   | cmds (cs : List PCmd)                      -- only appends commands (qubit creation, gates, …)
   | newArray (len : Nat)                       -- `alloc_array(len)`
   | meas (m : MeasMode) (cs : List PCmd)       -- `q.measure()` into a new array / into a register
+  | newReg (idx : Nat) (cs : List PCmd)        -- `new_register(v)`: `set R<idx> v`, and R<idx> is returned by
+                                               -- the block that creates it (it stays live afterwards)
   deriving Repr, DecidableEq
 
 /-- `get_new_array_address` -/
@@ -138,12 +140,14 @@ def build (b : Bk) : BOp → Bk
     match firstUnused b.meas 0 with
     | some i => { b with meas := b.meas.set i true, regs := b.regs ++ [i], pending := b.pending ++ cs }
     | none => b   -- "Ran out of M-registers" (raises; not generated)
+  | .newReg idx cs => { b with regs := b.regs ++ [100 + idx], pending := b.pending ++ cs }
 
 def buildAll (b : Bk) (body : List BOp) : Bk := body.foldl build b
 
 def declCmd (a : Arr) : PCmd := ⟨"ARRAY", [.int a.len, .txt s!"@{a.addr}"]⟩
 def retArrCmd (a : Arr) : PCmd := ⟨"RET_ARR", [.txt s!"@{a.addr}"]⟩
-def retRegCmd (i : Nat) : PCmd := ⟨"RET_REG", [.txt s!"M{i}"]⟩
+/-- registers to return: `i < 100` is `M i`, `100 + i` is `R i` (a `new_register` handle) -/
+def retRegCmd (i : Nat) : PCmd := ⟨"RET_REG", [.txt (if i < 100 then s!"M{i}" else s!"R{i - 100}")]⟩
 
 /-- `subrt_pop_pending_subroutine` (arrays without initial values, `return_arrays=True`) -/
 def allCmds (b : Bk) : List PCmd :=
@@ -184,6 +188,7 @@ def substBOp (σ : String → Int) : BOp → BOp
   | .cmds cs => .cmds (cs.map (substCmd σ))
   | .newArray l => .newArray l
   | .meas m cs => .meas m (cs.map (substCmd σ))
+  | .newReg i cs => .newReg i (cs.map (substCmd σ))
 
 /-- the host program written with the concrete values and ordinary flushes -/
 def directSeg (s : Seg) : Seg :=
